@@ -620,7 +620,16 @@ let () =
        | "C12" -> run_positions s r corpus { none with p_text = true; p_predict = true; p_predict_cpp = true; depth = 14 } 2500 100000
                     ~extra:(tagged "castling_family" (castling_family r (600 / !nshards)) @ tagged "promo_family" (promo_family r (300 / !nshards))) ()
        | "C07" -> run_positions s r corpus { none with p_rt = true; p_fen = true; p_state = true; depth = 20 } 2500 100000 ()
-       | "C04" -> run_positions s r corpus { none with p_perft = (if !tier = "quick" then 2 else 3); depth = 3; undo_pct = 0; null_pct = 0 } 400 8000
+       | "C04" ->
+         (* the count must not depend on what was computed before: positions with equal placement (and equal hash) but a
+            different castling rook, evaluated back to back in one process *)
+         List.iter (fun (pa, pb) ->
+             run_case s (fun () ->
+                 bump "source_rook_identity_pair";
+                 List.iter (fun p ->
+                     start s true p;
+                     ignore (visit s r { none with p_perft = 3 })) [ pa; pb; pa ])) (rook_identity_pairs r (max 1 ((if !tier = "quick" then 48 else 800) / !nshards)));
+         run_positions s r corpus { none with p_perft = (if !tier = "quick" then 2 else 3); depth = 3; undo_pct = 0; null_pct = 0 } 400 8000
                     ~extra:(tagged "castling_family" (castling_family r (100 / !nshards)) @ tagged "ep_family" (ep_family r (200 / !nshards))) ()
        | "C20" -> run_positions s r corpus { none with p_state = true; p_moves = true; p_attacks = true; p_game = true; p_text = true; p_fen = true; p_hist = true;
                                                        depth = 40; undo_pct = 12; null_pct = 4 } 1500 60000
